@@ -121,8 +121,10 @@ class _Gen:
         a = self.scalar_f()
         return self.emit({"op": "toint", "x": a}, [("i", ())])[0]
 
-    def template(self, shape, allow_w=True):
+    def template(self, shape, allow_w=True, prefer_const=False):
         names = ["u", "u+v", "u*v", "v-u", "neg", "sin", "u-K", "K-u*v", "u*lit", "lit", "vb"]
+        if prefer_const:  # wrapped functions of initial-style primitives: hoisted constants matter
+            names += ["u-K", "K-u*v"]
         # capturing an outer traced value forces the inner function to be re-created (and the
         # control-flow primitive re-compiled) on every evaluation: ~0.1 s each, so keep it rare
         if allow_w and self.draw(st.integers(0, 3)) == 3:
@@ -146,7 +148,7 @@ class _Gen:
             ops += ["bin", "un", "cmp", "where", "full"]
             ops += ["cond"] * 3 + ["switch"] * 2 + ["while"] * 2 + ["fori"] * 2 + ["divmod"] * 2
             if self.allow_isp:
-                ops += ["isp"] * 3
+                ops += ["isp"] * 4
         if f_non:
             ops += ["reduce"]
         if f_vec:
@@ -280,7 +282,7 @@ class _Gen:
             u, _, s = self.pick_env(f_any)
             v = self.pick("f", (), const=False)
             nout = d(st.integers(1, 2))
-            t = [self.template(s) for _ in range(nout)]
+            t = [self.template(s, prefer_const=True) for _ in range(nout)]
             okind = d(st.sampled_from(["tuple", "dict"])) if nout == 2 else d(st.sampled_from(["single", "tuple"]))
             self.emit({"op": "isp", "u": u, "v": v, "t": t, "okind": okind}, [("f", s)] * nout)
         else:  # pragma: no cover
